@@ -235,8 +235,6 @@ def select_total(ctx, rule='C12.select-total'):
             if l is None or fn.locals[l]['ty'] not in HANDLE_TYS:
                 continue
             h = du.root_of(l)
-            if h not in handles:
-                continue
             nsel += 1
             returned.add(h)
             validated = set()
@@ -336,6 +334,7 @@ def run(ctx, tier):
     results += validate_before_trust(ctx)
     results += select_total(ctx)
     results += seal_last(ctx)
+    results += c02.alternate_rule(ctx, rule='C12.alternate')
     results += c02.cow_free_set(ctx, rule='C12.fallback-kept')
     results += c02.pending_key(ctx, rule='C12.fallback-kept.key')
     return dict(
@@ -345,6 +344,6 @@ def run(ctx, tier):
             'the current and the legacy format, and validity compares stored and recomputed hash; (validate-before-trust) in the header-selection trace no '
             'panic/assert depends on header bytes that have not passed the checksum test of the same header; (select-total) a header is returned only behind '
             'its own validity test, each of the two headers can be returned, and two valid headers are compared by transaction id; (seal-last) header images '
-            'are sealed after all fields are stored; (fallback-kept) pages of the previous snapshot are filed as pending, never as free. NOT decided: '
+            'are sealed after all fields are stored; (alternate) commits alternate between the two header slots, so the other header is always the previous commit; (fallback-kept) pages of the previous snapshot are filed as pending, never as free. NOT decided: '
             'collision resistance of the checksum, behaviour of the rest of open on the fallback snapshot.'),
         assumptions=['damage is confined to one header page', 'FNV-1a / SHA3 detect the damage (no collision)'])
